@@ -41,8 +41,23 @@ VARIANTS = [
 
 
 def _fix_equality(xml):
-  # mujoco rejects a connect between world and world; keep the corpus simple
-  return xml.replace('', "")
+  return xml
+
+
+def batch_model(m, nworld):
+  """tile every per-world-batchable ('*') Model / Option field to nworld rows (as a user batching parameters would)."""
+  n = 0
+  for obj in (m, m.opt):
+    for f in dataclasses.fields(obj):
+      shp = getattr(f.type, "shape", None)
+      if not shp or shp[0] != "*":
+        continue
+      v = getattr(obj, f.name, None)
+      if isinstance(v, wp.array) and v.shape[0] == 1 and v.ptr:
+        a = v.numpy()
+        setattr(obj, f.name, wp.array(np.repeat(a, nworld, axis=0), dtype=v.dtype))
+        n += 1
+  return n
 
 
 def field_map(m, d):
@@ -72,7 +87,7 @@ class Launch:
   __slots__ = ("kernel", "dim", "binding", "shapes", "scalars", "model", "sizes")
 
 
-def harvest(models=None, variants=None, nworld=2, steps=2, extra=None, log=None):
+def harvest(models=None, variants=None, nworld=2, steps=2, extra=None, log=None, batched=("dense-newton-pyr", "sparse-newton-ell")):
   """-> dict kernel.key -> list[Launch]"""
   import mujoco
 
@@ -129,6 +144,15 @@ def harvest(models=None, variants=None, nworld=2, steps=2, extra=None, log=None)
           mjw.step(m, d)
         if extra:
           extra(mjw, mjm, m, d)
+        if batched and vname in batched:
+          try:
+            batch_model(m, nworld)
+            cur["fmap"] = field_map(m, d)
+            cur["name"] = f"{mname}/{vname}/batched"
+            mjw.step(m, d)
+          except Exception as ex:
+            if log:
+              log(f"batched step failed for {mname}/{vname}: {type(ex).__name__}: {ex}")
   finally:
     wp.launch = orig
   return out
